@@ -70,27 +70,44 @@ def repo_clean():
     return out.strip() == ''
 
 
-def run(sid, props, tier):
+def run(sid, props, tier, in_place=False):
+    """run checks against the seeded change.  Default: in a scratch worktree of /repo HEAD (VERIF_REPO points
+    the whole machinery at it), so that /repo itself stays untouched while other work reads it; `--in-place`
+    applies the patch to /repo and restores it afterwards (the procedure of the brief)."""
     d = os.path.join(SEEDED, sid)
     meta = json.load(open(os.path.join(d, 'meta.json')))
     props = props or [meta.get('property')]
-    assert repo_clean(), '/repo has uncommitted changes'
-    rc, out = sh(['git', '-C', '/repo', 'apply', os.path.join(d, 'patch.diff')])
-    assert rc == 0, out
+    env = dict(os.environ, VERIF_SEED=os.environ.get('VERIF_SEED', '1'))
+    if in_place:
+        assert repo_clean(), '/repo has uncommitted changes'
+        target = '/repo'
+    else:
+        target = '/tmp/seedrun_%s' % sid
+        sh(['git', '-C', '/repo', 'worktree', 'remove', '--force', target])
+        rc, out = sh(['git', '-C', '/repo', 'worktree', 'add', '--detach', target, 'HEAD'])
+        assert rc == 0, out
+        env['VERIF_REPO'] = target
+        env['PYTHONPATH'] = target
+    rc, out = sh(['git', '-C', target, 'apply', os.path.join(d, 'patch.diff')])
     results = {}
     try:
+        assert rc == 0, 'patch does not apply: ' + out
         for p in props:
             t0 = time.time()
-            rc, out = sh([os.path.join(VERIF, 'bin', 'check'), p, '--tier', tier], cwd=VERIF,
-                         env=dict(os.environ, VERIF_SEED=os.environ.get('VERIF_SEED', '1')), timeout=7200)
+            rc, out = sh([os.path.join(VERIF, 'bin', 'check'), p, '--tier', tier], cwd=VERIF, env=env, timeout=7200)
             lines = [l for l in out.split('\n') if l.startswith(('VIOLATION', 'KNOWN-FINDING')) or l.startswith(p + ':')]
             kinds = sorted({('no-failing-input-found' if l.endswith('no-failing-input-found') else 'failing-input') for l in lines if l.startswith('VIOLATION')})
             results[p] = {'rc': rc, 'detected': rc == 1, 'kinds': kinds, 'violations': sum(1 for l in lines if l.startswith('VIOLATION')),
                           'summary': [l for l in lines if l.startswith(p + ':')][-1:], 'wall_s': round(time.time() - t0, 1)}
+            if rc not in (0, 1):
+                results[p]['tail'] = out[-600:]
     finally:
-        sh(['git', '-C', '/repo', 'checkout', '--', '.'])
-        sh(['git', '-C', '/repo', 'clean', '-fdq', '--', 'stdnum', 'online_check', 'tests'])
-    assert repo_clean()
+        if in_place:
+            sh(['git', '-C', '/repo', 'checkout', '--', '.'])
+            sh(['git', '-C', '/repo', 'clean', '-fdq', '--', 'stdnum', 'online_check', 'tests'])
+            assert repo_clean()
+        else:
+            sh(['git', '-C', '/repo', 'worktree', 'remove', '--force', target])
     meta.setdefault('runs', {})
     for p, r in results.items():
         meta['runs']['%s/%s' % (p, tier)] = r
@@ -114,4 +131,4 @@ if __name__ == '__main__':
                 tier = a.split('=', 1)[1]
         for sid in ids:
             if os.path.isdir(os.path.join(SEEDED, sid)):
-                run(sid, props, tier)
+                run(sid, props, tier, in_place='--in-place' in sys.argv)
